@@ -793,6 +793,21 @@ def check_C08(chk):
         ts = [t for s, t in root.tests()]
         if ts:
             cases.append((root, rep, ("single", chk.rng.choice(ts).tid)))
+    # one test registered in several sub-suites of a suite that has fixtures of its own, selected by
+    # name: the suite's setup and teardown bracket every sub-suite that is entered
+    for nsub in ((2, 3) if chk.tier == "quick" else (2, 3, 4)):
+        for deep in (False, True):
+            shared = L.Test(7, body=[("c", 1)], ctx_setup=True)
+            subs = []
+            for i in range(nsub):
+                kids = [L.Test(10 + i, body=[("c", 1)]), shared]
+                sub = L.Suite(1 + i, has_setup=(i % 2 == 0), children=kids)
+                subs.append(L.Suite(20 + i, children=[sub]) if deep else sub)
+            subs.insert(1, L.Suite(9, children=[L.Test(30, body=[("c", 1)])]))     # a sub-suite without the name
+            root = L.Suite(0, has_setup=True, has_teardown=True, children=subs + [L.Test(31, body=[("c", 1)])])
+            rep = chk.rng.choice(L.REPORTERS)
+            cases.append((root, rep, ("single", 7)))
+            cases.append((root, rep, "forked"))
     runs, mrs = run_cases(drv, cases)
     correspondence(chk, cases, runs, mrs)
     for (root, rep, mode), run, mr in zip(cases, runs, mrs):
@@ -807,8 +822,11 @@ def check_C08(chk):
         ev = test_events(run, root)
         executed = set(executed_tests(root, mode))
         tests = {t.name: (s, t) for s, t in root.tests()}
+        names = [t.name for s, t in root.tests()]
         died_inproc = False
         for name, (s, t) in tests.items():
+            if names.count(name) > 1:
+                continue        # registered several times: judged by the whole event sequence below
             got = ev.get(name, [])
             if name not in executed or t.skip:
                 if got:
